@@ -268,6 +268,54 @@ def impossible_evidence_case(ctx, rs, rep):
                       f'returns {P[r].tolist() if P.ndim == 2 else P.shape} (sum {float(np.nansum(P[r])) if P.ndim == 2 else None}): not a probability vector', replay=rep)
 
 
+def unsorted_domain_case(ctx, rs, rep):
+    """categorical features whose domains the USER lists in another order than increasing (`domains=[[2, 0, 1], [1, 3, 0, 2], ...]`): the
+    fitted leaves keep the caller's order; `predict_proba` against the posterior of the wrapped circuit evaluated from its parameters"""
+    n_feat, n_classes = int(rs.randint(2, 5)), int(rs.randint(2, 4))
+    cards = [int(rs.randint(3, 5)) for _ in range(n_feat)]
+    n_rows = int(rs.choice([80, 160]))
+    y = rs.permutation(np.arange(n_rows) % n_classes)
+    X = np.stack([(rs.randint(0, c, size=n_rows) + y) % c for c in cards], axis=1).astype(np.float32)
+    doms = []
+    for c in cards:
+        d = [int(t) for t in rs.permutation(c)]
+        while d == sorted(d):
+            d = [int(t) for t in rs.permutation(c)]
+        doms.append(d)
+    clf = None
+    for split_cols in ('gvs', 'rdc', 'random'):      # (the G-test splitter builds histogram bins from the domain and refuses unsorted ones)
+        c_ = SPNClassifier([Categorical] * n_feat, doms + [list(range(n_classes))], learn_leaf='mle', split_rows='kmeans', split_cols=split_cols,
+                           min_rows_slice=int(rs.choice([20, 40])), min_cols_slice=2, random_state=int(rs.randint(1000)), verbose=False)
+        try:
+            c_.fit(X, y.astype(np.float32))
+            clf = c_
+            break
+        except Exception:
+            ctx.count('fit-did-not-return')
+    if clf is None:
+        return
+    ctx.count('classifiers-with-unsorted-feature-domains')
+    Q = X[:10].copy()
+    Q[5:][rs.rand(5, n_feat) < 0.4] = np.nan
+    try:
+        P = np.asarray(clf.predict_proba(Q), dtype=np.float64)
+    except Exception as ex:
+        ctx.violation(f'c20-raises:{type(ex).__name__}', f'predict_proba raised {type(ex).__name__}: {str(ex)[:160]} (feature domains {doms})', replay=rep)
+        return
+    for r in range(len(Q)):
+        # the property's posterior: class prior x class-conditional evidence likelihood (the class branch with the label missing), normalised
+        xr = np.append(Q[r].astype(np.float64), np.nan)
+        joint = np.array([float(w) * S.ref_value(b, xr) for w, b in zip(clf.spn_.weights, clf.spn_.children)])
+        if joint.sum() <= 0 or len(joint) != n_classes:
+            continue
+        post = joint / joint.sum()
+        if P.shape != (len(Q), n_classes) or np.any(np.abs(P[r] - post) > 1e-4):
+            ctx.violation('c20-posterior-unsorted-domains', f'classifier over categorical features with the user-given domains {doms}: predict_proba row '
+                          f'{P[r].tolist() if P.ndim == 2 else P.shape} but prior x class-conditional likelihood of the wrapped circuit, evaluated from its parameters and normalised, is {post.tolist()} '
+                          f'at {[None if np.isnan(t) else float(t) for t in Q[r]]}', replay=rep)
+            return
+
+
 def clf_case(ctx, k):
     rs = np.random.RandomState(np_seed(ctx.sub_rng('clf', k)))
     n_classes = [2, 3, 5, 2, 4][k % 5]
@@ -357,6 +405,8 @@ def run(ctx):
         rs = np.random.RandomState(np_seed(ctx.sub_rng('est', k)))
         ctx.case('estimator', nontrivial_key=('est', k), sample=dict(kind='estimator', k=k))
         check_estimator(ctx, rs, dict(kind='c20-est', k=k, seed=ctx.seed))
+        if ctx.n_new() == 0:
+            unsorted_domain_case(ctx, rs, dict(kind='c20-unsorted-domains', k=k, seed=ctx.seed))
         if ctx.n_new() == 0:
             impossible_evidence_case(ctx, rs, dict(kind='c20-impossible', k=k, seed=ctx.seed))
         for j in range(5):
